@@ -64,7 +64,21 @@ var sobsState struct {
 	processed  int64
 }
 
+// ctorGate, when set, holds the next protocol constructor: it signals entered and waits
+// for release (a constructor that takes its time while the server is closed).
+var ctorGate atomic.Value // *ctorHold
+
+type ctorHold struct {
+	entered chan struct{}
+	release chan struct{}
+	used    int32
+}
+
 func newSProto(n *onet.TreeNodeInstance) (onet.ProtocolInstance, error) {
+	if g, _ := ctorGate.Load().(*ctorHold); g != nil && atomic.CompareAndSwapInt32(&g.used, 0, 1) {
+		close(g.entered)
+		<-g.release
+	}
 	p := &sproto{TreeNodeInstance: n, run: -1}
 	if err := p.RegisterHandlers(p.handlePing, p.handleGo); err != nil {
 		return nil, err
@@ -328,6 +342,9 @@ func runServer(in input) lib.Case {
 		}
 		return "ok"
 	}
+	var hold *ctorHold
+	var heldStart *op
+	defer ctorGate.Store((*ctorHold)(nil))
 	timerHeld := false
 	closeTimedOut := false // the first Close already missed its deadline once
 	var scenarioErr string
@@ -411,6 +428,25 @@ func runServer(in input) lib.Case {
 						waitCh(x.done, 3*time.Second)
 					}
 				}
+			}
+		case "startheld":
+			// a protocol start whose constructor is still running when Close is called
+			hold = &ctorHold{entered: make(chan struct{}), release: make(chan struct{})}
+			ctorGate.Store(hold)
+			heldStart = startOp("start-held", func() string {
+				pi, err := ov.CreateProtocol(protoName, tree, onet.NilServiceID)
+				if err != nil || pi == nil {
+					return "err"
+				}
+				return "ok"
+			})
+			if !waitCh(hold.entered, 5*time.Second) {
+				scenarioErr = fmt.Sprintf("macro %d: the constructor was never entered", i)
+			}
+		case "startrelease":
+			if hold != nil {
+				close(hold.release)
+				waitCh(heldStart.done, 3*time.Second)
 			}
 		case "newinstance":
 			x := startOp("create-protocol", func() string {
@@ -542,6 +578,10 @@ func runServer(in input) lib.Case {
 	sobs := fmt.Sprintf("(mkSobs %s %d %d %s %d %d %s %s)", lib.Bool(o.Returned), o.Instances, o.Late, lib.Bool(o.Panic),
 		o.OpsPending, o.Goroutines, lib.Bool(o.Ports), lib.Bool(o.Db))
 	coq := fmt.Sprintf("ServerClose %s %s %s", lib.NatList(o.Insts), lib.List(ms), sobs)
+	if heldStart != nil {
+		// validated against Net/StartClose.v
+		coq = fmt.Sprintf("CtorHeld %s %s", lib.Bool(heldStart.res == "ok"), sobs)
+	}
 	if sv.Barrier > 1 {
 		// the overlapping calls are validated against the k-caller model (Net/CloseConc.v)
 		oks, errs, pending := 0, 0, 0
@@ -589,6 +629,8 @@ func serverClass(in input) string {
 			if closed {
 				tags = append(tags, "startafter")
 			}
+		case "startheld":
+			tags = append(tags, "ctorheld")
 		}
 	}
 	if in.Srv.Barrier > 1 {
@@ -612,6 +654,11 @@ func serverCorpus() []interface{} {
 		// instance_after_close_refuted: a protocol start after the close
 		out = append(out, sv(tcp, srv{Servers: 3, Runs: 1, PerChild: 2, Closes: 1,
 			Script: []mac{m0("close"), m1("newinstance", 1)}}))
+		// a protocol start whose constructor is running when Close is called
+		out = append(out, sv(tcp, srv{Servers: 3, Runs: 1, PerChild: 2, Closes: 1,
+			Script: []mac{m0("startheld"), m0("close"), m0("startrelease")}}))
+		out = append(out, sv(tcp, srv{Servers: 1, Runs: 0, Closes: 1,
+			Script: []mac{m0("startheld"), m0("close"), m0("startrelease")}}))
 		// overlapping Close() calls
 		out = append(out, sv(tcp, srv{Servers: 1, Runs: 0, Closes: 1, Barrier: 2, Script: []mac{m0("close")}}))
 		out = append(out, sv(tcp, srv{Servers: 3, Runs: 1, PerChild: 2, Closes: 1, Barrier: 4, Script: []mac{m0("close")}}))
@@ -639,6 +686,11 @@ func genServer(rng *rand.Rand, tcp bool) input {
 	for live > 0 && rng.Intn(3) == 0 {
 		s.Script = append(s.Script, m1("finish", rng.Intn(live)))
 		live--
+	}
+	if rng.Intn(4) == 0 {
+		s.Concurrent = false
+		s.Script = append(s.Script, m0("startheld"), m0("close"), m0("startrelease"))
+		return input{Kind: "server", TCP: tcp, Srv: &s}
 	}
 	if live == 0 && rng.Intn(2) == 0 {
 		s.Script = append(s.Script, m1("timerfire", 0), m0("close"), m1("timerrelease", 0))
